@@ -28,6 +28,28 @@ def _plain(path):
     return "".join(out)
 
 
+def _only_restores(F, f):
+    """every set_position on every path of f is given a value that a position() call on the same context returned earlier
+    on that path"""
+    try:
+        paths = Sim(f, F, max_paths=100000).run()
+    except Exception:      # noqa
+        return False
+    n = 0
+    for p in paths:
+        reads = []
+        for e in p.events:
+            if e[0] != "call" or not e[2]:
+                continue
+            if mir.call_matches(e[1], "Context::position") and len(e) > 5:
+                reads.append((e[2][0], e[5]))
+            elif mir.call_matches(e[1], "Context::set_position"):
+                n += 1
+                if not any(rt.idiom_same(c, e[2][0]) and v == e[2][1] for c, v in reads):
+                    return False
+    return n > 0
+
+
 def r6_position_writers(F, res):
     rid = res.rule("C12-R6", "only parse() (start position), the LR shift and the lexer's whitespace skip move the input position; "
                    "no code on the way to an error report rewinds or advances it", floor=4)
@@ -46,6 +68,10 @@ def r6_position_writers(F, res):
             where = "%s:%s" % (f.file, tm.get("line"))
             if key:
                 res.ok(rid, "writer/%s" % root.rsplit("::", 2)[-2:][0].split(" ")[0] + "::" + root.rsplit("::", 1)[-1], where, POSITION_WRITERS[key[0]])
+            elif _only_restores(F, f):
+                # not a move: the value written is one the same function read from the same context earlier on the path
+                # (the bracket around the layout attempt, C12-R9)
+                res.ok(rid, "restore/%s" % root.rsplit("::", 1)[-1], where, "puts back a position read earlier on the same path")
             else:
                 res.violation(rid, "writer/%s" % root.rsplit("::", 1)[-1], "%s moves the input position (set_position): the position is "
                               "owned by parse(), the LR shift and the whitespace skip; an extra writer changes where errors (and "
@@ -283,6 +309,29 @@ def run(ctx, res):
             res.undecided(rid7, u["what"], u.get("where"))
     except mir.AnchorLost as e:
         res.undecided(rid7, str(e))
+    # R9 position bracket around a layout attempt that yields no layout
+    rid9 = res.rule("C12-R9", "a layout attempt that yields no layout leaves the position where the content lexer gave up: on every "
+                    "path through layout_parser.parse_with_context(ctx) that takes no layout, set_position(ctx, ..) puts back the "
+                    "position read before (LR next_token and GLR find_lookaheads); the error is then reported there", floor=2)
+    for label, pat in (("lr", c13.LR_NEXT_TOKEN), ("glr", rt.GLR + "find_lookaheads$")):
+        try:
+            fn = F.one(pat)
+        except Exception:      # noqa
+            res.anchor_lost(rid9, "%s token fetch not found" % label)
+            continue
+        try:
+            n, badp = rt.layout_position_bracket(F, fn)
+        except mir.AnchorLost as e:
+            res.undecided(rid9, str(e), fn.loc())
+            continue
+        if not n:
+            res.anchor_lost(rid9, "no path through the layout parser that takes no layout in the %s token fetch" % label, fn.loc())
+        elif badp:
+            res.violation(rid9, "layout-position-bracket/" + label, "%s (path ending in %s; %d of %d paths): a syntax error after a "
+                          "half-parsed layout (unterminated comment) is reported behind it with the content state's expected "
+                          "tokens" % (badp[0][0], badp[0][1], len(badp), n), fn.loc())
+        else:
+            res.ok(rid9, "layout-position-bracket/" + label, fn.loc(), "%d paths through a layout attempt without layout, position restored on each" % n)
     res.explanation = (
         "Decides where the reported offset and expected set come from: the complete next_token decision table (error only "
         "when nothing matched, no layout progress and no partial-parse STOP), the error value (zero-width span at the "
